@@ -16,7 +16,7 @@ CHECKS = {
             {"pkg": "Havoc/pkg/agent", "with": AGENT_WITH + ["Havoc/pkg/common/parser@lazy"], "entries": ["H_c01_dispatch_lazy"], "shards": 31, "flags": ["-loop-cut", "TaskDispatch=2"]},
             {"pkg": "Havoc/pkg/agent", "with": AGENT_WITH, "entries": ["H_c01_dispatch_deep"], "shards": 64, "flags": ["-conc-limit", "2", "-time", "240s", "-loop-cut", "TaskDispatch=3"], "disabled": True},
         ],
-        "bounds": "TaskDispatch raw: every command id with a case + one arbitrary other id, body of every length 0..8, all byte values; TaskDispatch lazy: every command except CHECKIN/KERBEROS on an on-demand generated input (every requested field present with arbitrary integer values, length-prefixed fields of 0,1,2,40 bytes [0,2 for FS, DEMON_INFO, INLINEEXECUTE, TOKEN, NET] of fixed content, input may end at every check, at most 2 visits of any TaskDispatch loop header, at most 40 fields); request handler: raw body 0..24 bytes and valid header + 0..14 bytes against state S (3 agents, pivot child, queue shapes incl. pivot-wrapped and operator pivot job, service on/off); nested pivot callbacks (connect with truncated registration, relayed callback 0..8 bytes); service lookup with/without Service block.",
+        "bounds": "TaskDispatch raw: every command id with a case + one arbitrary other id, body of every length 0..8, all byte values; TaskDispatch lazy: every command except CHECKIN/KERBEROS on an on-demand generated input (every requested field present with arbitrary integer values, length-prefixed fields of 0,1,2,40 bytes [0,2 for FS, DEMON_INFO, INLINEEXECUTE, TOKEN, NET] of fixed content, input may end at every check, at most 2 visits of any TaskDispatch loop header, at most 40 fields); request handler: raw body 0..24 bytes and valid header + 0..14 bytes against state S (3 agents, pivot child, queue shapes incl. pivot-wrapped and operator pivot job, service on/off); nested pivot callbacks (connect with truncated registration, relayed callback 0..8 bytes); service lookup with/without Service block. Check-in through the listener handler with a task queued for the agent itself or for an agent 1-2 pivot hops below it (H_c04_checkin, also registered here).",
         "outside": "bodies longer than the bounds; field contents in the lazy harness; goroutines started by SOCKET READ (recorded, not run); gin/net/http; more than 3 agents",
         "min_completed": 5,
         "min_completed_per_entry": {"H_c01_service_lookup": 3},
@@ -37,7 +37,7 @@ CHECKS = {
             {"pkg": "Havoc/pkg/agent", "with": AGENT_WITH, "entries": ["H_c04_race"], "race": True},
             {"pkg": "Havoc/pkg/handlers", "with": ["Havoc/pkg/agent"] + AGENT_WITH, "entries": ["H_c04_checkin"]},
         ],
-        "bounds": "dequeue: queue of 0..4 jobs with 0..2 arguments each, byte arguments of any length up to 2^31 (abstract buffers); history: 1..5 enqueue/check-in operations on two agents; chunks: file size any value in [0, 3*30MB+1]; race: two threads, preemption at every shared load/store and mutex operation, at most 2 voluntary switches; check-in through the listener: requests of one or two packages (GET_JOB and/or a callback, either order) with one task queued or none.",
+        "bounds": "dequeue: queue of 0..4 jobs with 0..2 arguments each, byte arguments of any length up to 2^31 (abstract buffers); history: 1..5 enqueue/check-in operations on two agents; chunks: file size any value in [0, 3*30MB+1]; race: two threads, preemption at every shared load/store and mutex operation, at most 2 voluntary switches; check-in through the listener: requests of one or two packages (GET_JOB and/or a callback, either order) with one task queued or none. The task of the check-in harness is for the agent itself or for an agent 1-2 pivot hops below it.",
         "outside": "more than two threads or two voluntary context switches; service Get path",
         "min_completed": 3,
     },
@@ -64,7 +64,7 @@ CHECKS = {
             {"pkg": "Havoc/pkg/handlers", "with": ["Havoc/pkg/agent"] + AGENT_WITH, "entries": ["H_c12_admission"], "flags": ["-tags", "c12"], "shards": 4},
             {"pkg": "Havoc/cmd/server", "with": SRV_WITH, "entries": ["H_c16_listener_edit"], "no_native_witness": True, "no_native_replay": True},
         ],
-        "bounds": "URIs: none / [\"\"] / one / two / [\"\", one] configured, request URI '/'+1 arbitrary byte (thorough 2); User-Agent set/unset ('UA'+1 byte, thorough 2) and present/absent in the request; request headers: none, one required header with a 2-byte arbitrary value (may contain ':' and blanks), with ignored headers in either case; response headers: none / one / two with a 3-byte arbitrary value (may contain ':'); redirector flag; IPv4 and IPv6 peers.",
+        "bounds": "URIs: none / [\"\"] / one / two / [\"\", one] configured, request URI '/'+1 arbitrary byte (thorough 2); User-Agent set/unset ('UA'+1 byte, thorough 2) and present/absent in the request; request headers: none, one required header with a 2-byte arbitrary value (may contain ':' and blanks), with ignored headers in either case; response headers: none / one / two with a 3-byte arbitrary value (may contain ':'); redirector flag; IPv4 and IPv6 peers. Listener edit (H_c16_listener_edit): redirector trust of both listeners equals the profile's after any edit.",
         "outside": "gin routing and method dispatch (POST/GET registration), net/http, TLS, the bytes of 404.html; header names are concrete",
         "min_completed": 3,
     },
@@ -98,7 +98,7 @@ CHECKS = {
             {"pkg": "Havoc/pkg/db", "with": ["Havoc/pkg/agent", "Havoc/pkg/logr", "Havoc/pkg/common/parser", "Havoc/pkg/socks"], "entries": ["H_c10_agent_text"], "shards": 5},
             {"pkg": "Havoc/pkg/db", "with": ["Havoc/pkg/agent", "Havoc/pkg/logr", "Havoc/pkg/common/parser", "Havoc/pkg/socks"], "entries": ["H_c10_agent_life"], "shards": 3},
         ],
-        "bounds": "one session: id with arbitrary top byte (incl. >= 0x80000000) and fixed low 24 bits, 2-byte key and IV, metadata strings of 1..2 lower-case letters, 8..32 bit symbolic integers; insert, restart, restore, update, restart, death, restore. Metadata text: one of 5 text fields holds 1..3 arbitrary printable ASCII characters (digit-only, leading zeros, signs, blank padding), restart, compare. Links: every sequence of 1..3 add/remove operations over 3 agents (one id >= 0x80000000), restart, LinksOf/ParentOf/LinkExist against a reference relation. Listeners: every sequence of 1..3 add/remove operations over two arbitrary names of 1..2 printable characters with 2-character configuration text, restart, ListenerAll/Exist/Count. SQLite is a relational model that executes the SQL text the code really sends, with SQLite's type-affinity rules for integer-looking text and UNIQUE columns; every statement atomic and durable.",
+        "bounds": "one session: id with arbitrary top byte (incl. >= 0x80000000) and fixed low 24 bits, 2-byte key and IV, metadata strings of 1..2 lower-case letters, 8..32 bit symbolic integers; insert, restart, restore, update, restart, death, restore. Metadata text: one of 5 text fields holds 1..3 arbitrary printable ASCII characters (digit-only, leading zeros, signs, blank padding), restart, compare. Links: every sequence of 1..3 add/remove operations over 3 agents (one id >= 0x80000000), restart, LinksOf/ParentOf/LinkExist against a reference relation. Listeners: every sequence of 1..3 add/remove operations over two arbitrary names of 1..2 printable characters with 2-character configuration text, restart, ListenerAll/Exist/Count. SQLite is a relational model that executes the SQL text the code really sends, with SQLite's type-affinity rules for integer-looking text and UNIQUE columns; every statement atomic and durable. Agent life: two sessions, every sequence of 1..3 (thorough 1..4) events out of {update as dead, reported dead by id, update as alive, removed}, restart. Result sets: every query opened by a finished operation is closed (model: an open one makes later writes fail with 'database is locked'; natively sql.DBStats.InUse == 0).",
         "outside": "kill points inside a statement and journalling (each statement is atomic in the model), real-literal-looking text (digits with '.', 'e', 'E') in numeric-affinity columns, non-ASCII text, structs.Map/json listener configuration encoding (reflection); native replay exercises real SQLite for witnesses and counterexamples",
         "min_completed": 1,
     },
@@ -112,7 +112,7 @@ CHECKS = {
             {"pkg": "Havoc/pkg/profile/yaotl/hclsyntax", "entries": ["H_c17_parse"], "shards": 16, "flags": ["-init", "Havoc/pkg/profile/yaotl,golang.org/x/text/unicode/norm,github.com/zclconf/go-cty/...,math/big,github.com/agext/levenshtein"]},
         ],
         "bounds": "JSON scanner: every byte string of length 0..3; JSON parser (json.Parse): every byte string of length 0..2 (thorough 0..3) and every single-byte mutation of a 52-byte document with strings, numbers, keywords, arrays and nested objects - returns with a body and/or diagnostics, ranges inside the input, error-free documents read as attributes and evaluate; string-literal sub-lexer (scanStringLit, quoted and unquoted): every byte string of length 0..4; native-syntax scanner (the Ragel machine of scan_tokens.go, modes normal/template/ident-only): every byte string of length 0..2 (thorough: 0..3): token order, coverage, bytes, end-of-file token, positions; the four parser entry points ParseConfig/ParseExpression/ParseTemplate/ParseTraversalAbs: every byte string of length 0..2 (3-byte inputs were tried in the thorough tier: 6 of 16 slices did not finish within 2 hours each, so they are not claimed): no panic, termination, node and diagnostic ranges inside the input, children inside parents, error-free inputs evaluate (nil context) without panicking; single-fault mutations: every byte value at every position of 2 (thorough: 6) well-formed sources of 40..60 bytes covering blocks, labels, nested blocks, lists, objects, templates with interpolation/if/for directives, heredocs (LF and CRLF), for-expressions, function calls with expansion, conditionals, splats, indexing, operators - scanner and ParseConfig with the same obligations; grapheme segmentation by contract.",
-        "outside": "inputs longer than the bounds other than single-byte mutations of the listed sources; gohcl decoding of error-free input (reflection); encoding/json.Unmarshal inside the JSON parser is over-approximated (may reject any token; string escapes not decoded); did-you-mean hints in diagnostic text (stubbed: edit distance over symbolic names forks per character pair); grapheme cluster segmentation (contract stub: some prefix of 1..n bytes); number literals whose digits are symbolic reach math/big float formatting (paths abandoned and counted)",
+        "outside": "inputs longer than the bounds other than single-byte mutations of the listed sources; gohcl decoding of error-free input (reflection); encoding/json.Unmarshal inside the JSON parser is over-approximated (may reject any token - a string token with a syntax error at any offset 1..len, a solver variable; string escapes not decoded); did-you-mean hints in diagnostic text (stubbed: edit distance over symbolic names forks per character pair); grapheme cluster segmentation (contract stub: some prefix of 1..n bytes); number literals whose digits are symbolic reach math/big float formatting (paths abandoned and counted)",
         "min_completed": 3,
     },
     "C18": {
@@ -121,7 +121,7 @@ CHECKS = {
             {"pkg": "Havoc/pkg/profile/yaotl/hclsyntax", "entries": ["H_c18_access"], "shards": 8, "flags": ["-tags", "nohint", "-init", "Havoc/pkg/profile/yaotl,golang.org/x/text/unicode/norm,github.com/zclconf/go-cty/...,math/big,github.com/agext/levenshtein"]},
             {"pkg": "Havoc/pkg/profile/yaotl/hclsyntax", "entries": ["H_c18_binary"], "shards": 4, "flags": ["-tags", "nohint", "-init", "Havoc/pkg/profile/yaotl,golang.org/x/text/unicode/norm,github.com/zclconf/go-cty/...,math/big,github.com/agext/levenshtein"]},
         ],
-        "bounds": "binary operators: x S1 y S2 z where each operator slot is two arbitrary bytes (all 13 binary operators, either blank placement for one-character operators) over four operand environments (numbers 12,4,2; 7,7,3; number/bool/number; three booleans), as written and with redundant parentheses around the sub-expression that binds first: value prescribed by the six precedence levels, left associativity and the typing rules, or an error diagnostic for ill-typed / division by zero. Access: one arbitrary digit as a source byte in tuple index, attribute name, string key, conditional, for-expression filter, index into a parenthesised splat result, and a splat over null compared with it. Templates: arbitrary literal characters and an arbitrary two-character ASCII string variable in interpolation, strip markers (next to a literal, and separated from it by another sequence), if/else, if without else, for directive, heredoc, indented heredoc, and an indented heredoc with a line that starts with an interpolation.",
+        "bounds": "binary operators: x S1 y S2 z where each operator slot is two arbitrary bytes (all 13 binary operators, either blank placement for one-character operators) over four operand environments (numbers 12,4,2; 7,7,3; number/bool/number; three booleans), as written and with redundant parentheses around the sub-expression that binds first: value prescribed by the six precedence levels, left associativity and the typing rules, or an error diagnostic for ill-typed / division by zero. Access: one arbitrary digit as a source byte in tuple index, attribute name, string key, conditional, for-expression filter, index into a parenthesised splat result, and a splat over null compared with it. Templates: arbitrary literal characters and an arbitrary two-character ASCII string variable in interpolation, strip markers (next to a literal, and separated from it by another sequence), if/else, if without else, for directive, heredoc, indented heredoc, and an indented heredoc with a line that starts with an interpolation. For-expression whose result expression fails for an element the filter excludes ([for i in [0, 1, D]: [10, 20][i] if i < 2]).",
         "outside": "expression trees beyond the listed shapes (nesting deeper than two operators, function calls, user functions, try/can), numbers other than small integers (quotients without finite binary expansion are not compared), unknown and null values, marks, for-expressions with grouping, object-for, non-ASCII text, equality across collection types; the reference semantics are transcribed from the HCL native syntax specification in the harness",
         "min_completed": 3,
     },
@@ -142,7 +142,7 @@ CHECKS = {
             {"pkg": "Havoc/pkg/profile/yaotl/hclwrite", "with": ["Havoc/pkg/profile/yaotl/hclsyntax"], "entries": ["H_c20_string_value"], "shards": 6, "shards_thorough": 22, "thorough": ["-time", "3000s"], "flags": ["-tags", "nohint", "-init", "Havoc/pkg/profile/yaotl,golang.org/x/text/unicode/norm,github.com/zclconf/go-cty/...,math/big,github.com/agext/levenshtein"]},
             {"pkg": "Havoc/pkg/profile/yaotl/hclwrite", "with": ["Havoc/pkg/profile/yaotl/hclsyntax"], "entries": ["H_c20_mutate"], "shards": 20, "allow_abandon": ["symbolic int -> float conversion"], "flags": ["-tags", "nohint", "-init", "Havoc/pkg/profile/yaotl,golang.org/x/text/unicode/norm,github.com/zclconf/go-cty/...,math/big,github.com/agext/levenshtein"]},
         ],
-        "bounds": "short files: every byte string of length 0..2 (thorough 0..3) that is a syntactically valid file; mutated files: every single-byte mutation (any position, any byte value) of 4 well-formed sources of 55..75 bytes (three comment styles, labelled and nested blocks, lists, objects, templates with interpolation and if-directives, plain and indented heredocs, conditionals, splats, for-expressions, tabs and odd spacing) that is still a valid file: serialising the loaded tokens reproduces the input byte for byte (a tab between tokens comes back as a space), Format changes nothing but spaces and tabs, Format is idempotent, the formatted file is still valid. Programmatic edits: every sequence of 1..2 edits out of {set attribute a, set the last attribute c, set a new attribute n, remove a, remove c (the last item), remove an unknown attribute, append a block with a label, remove the first block} with an arbitrary 7-bit string of 0..1 (thorough 0..2) characters as value or label, on a file with a free-standing comment, a line comment, two attributes and a labelled block: the output re-parses, shows exactly those changes, keeps the values of untouched items and their comments. Writing a Go value with gohcl.EncodeIntoBody (string, number, flag, list, two labelled blocks; one of host / list element / label+password is an arbitrary 7-bit string of 0..1, thorough 0..2, characters) gives a valid file that gohcl.DecodeBody reads back to the same value. Formatting additionally keeps every attribute value that evaluates (variables bound in the harness) equal before and after.",
+        "bounds": "short files: every byte string of length 0..2 (thorough 0..3) that is a syntactically valid file; mutated files: every single-byte mutation (any position, any byte value) of 4 well-formed sources of 55..75 bytes (three comment styles, labelled and nested blocks, lists, objects, templates with interpolation and if-directives, plain and indented heredocs, conditionals, splats, for-expressions, tabs and odd spacing) that is still a valid file: serialising the loaded tokens reproduces the input byte for byte (a tab between tokens comes back as a space), Format changes nothing but spaces and tabs, Format is idempotent, the formatted file is still valid. Programmatic edits: every sequence of 1..2 edits out of {set attribute a, set the last attribute c, set a new attribute n, remove a, remove c (the last item), remove an unknown attribute, append a block with a label, remove the first block} with an arbitrary 7-bit string of 0..1 (thorough 0..2) characters as value or label, on a file with a free-standing comment, a line comment, two attributes and a labelled block: the output re-parses, shows exactly those changes, keeps the values of untouched items and their comments. Writing a Go value with gohcl.EncodeIntoBody (string, number, flag, list, two labelled blocks; one of host / list element / label+password is an arbitrary 7-bit string of 0..1, thorough 0..2, characters) gives a valid file that gohcl.DecodeBody reads back to the same value. Formatting additionally keeps every attribute value that evaluates (variables bound in the harness) equal before and after. String values: a 7-bit string of 0..2 (thorough: 0..3, in 8 slices by the first character) arbitrary characters written as attribute value or block label reads back as itself through the real scanner, parser and evaluator. Rewrite sources: 5 (the fifth with comments after a closing brace and between block type and label, one-line blocks, keyword index keys).",
         "outside": "files longer than the listed sources and multi-byte mutations; sequences of more than one edit; non-ASCII values in edits; decoding the formatted file through gohcl (reflection; hclsyntax-level values are compared); grapheme segmentation is the deterministic one-rune-per-cluster model (combining marks outside); did-you-mean hints stubbed; mutations that turn a digit of a number literal into another digit reach math/big's float-to-text conversion with a symbolic operand (those paths are abandoned, counted in the evidence and not claimed)",
         "min_completed": 3,
     },
@@ -153,7 +153,7 @@ CHECKS = {
             {"pkg": "Havoc/pkg/profile", "with": ["Havoc/pkg/profile/yaotl/hclsyntax"], "entries": ["H_c14_reject"], "shards": 13, "flags": ["-tags", "nohint", "-init", "Havoc/pkg/profile/yaotl,golang.org/x/text/unicode/norm,github.com/zclconf/go-cty/...,math/big,github.com/agext/levenshtein"]},
             {"pkg": "Havoc/pkg/profile/yaotl/hclsyntax", "entries": ["H_c14_profile_string"], "shards": 6, "flags": ["-init", "Havoc/pkg/profile/yaotl,golang.org/x/text/unicode/norm,github.com/zclconf/go-cty/...,math/big,github.com/agext/levenshtein"]},
         ],
-        "bounds": "string literal spelling kernel: values of 0..2 arbitrary bytes, each written raw (ASCII, where legal), as \\n \\r \\t \\\" \\\\, or as \\xHH in upper or lower case, through scanStringLit + ParseStringLiteralToken. End to end through the real scanner, parser and template evaluation (ParseConfig -> Body -> Attribute.Expr.Value / block labels): values of 0..2 (thorough 0..3) arbitrary 7-bit bytes in every accepted spelling, as a top-level attribute, as an attribute inside a labelled block after a comment and a blank line, between the escaped template markers $${ and %%{, and as a block label; a lone $ or % as last character; as a heredoc body of 1..2 (thorough 1..3) arbitrary printable characters or line breaks, plain and indented (<<-). Schema level, through the real hclsimple.Decode -> gohcl.DecodeBody -> gocty path into HavocConfig (reflection emulated by the engine): a profile with Teamserver (host with an arbitrary character, port of two arbitrary digits written as a number or as a string), two user blocks (label and password with arbitrary characters), an Smb and an Http listener (host list, flag, optional fields absent), either attribute order: every field has the configured value, absent blocks/attributes stay absent. Single-fault mutations of a valid profile (13 kinds: required string / number / nested string / list omitted, single block repeated at top level and nested, unknown attribute with an arbitrary letter, unknown block, text where a number is required, list where a string is required, missing label, extra label): rejected with an error diagnostic that has a place inside the file; the unmodified profile loads.",
+        "bounds": "string literal spelling kernel: values of 0..2 arbitrary bytes, each written raw (ASCII, where legal), as \\n \\r \\t \\\" \\\\, or as \\xHH in upper or lower case, through scanStringLit + ParseStringLiteralToken. End to end through the real scanner, parser and template evaluation (ParseConfig -> Body -> Attribute.Expr.Value / block labels): values of 0..2 (thorough 0..3) arbitrary 7-bit bytes in every accepted spelling, as a top-level attribute, as an attribute inside a labelled block after a comment and a blank line, between the escaped template markers $${ and %%{, and as a block label; a lone $ or % as last character; as a heredoc body of 1..2 (thorough 1..3) arbitrary printable characters or line breaks, plain and indented (<<-). Schema level, through the real hclsimple.Decode -> gohcl.DecodeBody -> gocty path into HavocConfig (reflection emulated by the engine): a profile with Teamserver (host with an arbitrary character, port of two arbitrary digits written as a number or as a string), two user blocks (label and password with arbitrary characters), an Smb and an Http listener (host list, flag, optional fields absent), either attribute order: every field has the configured value, absent blocks/attributes stay absent. Single-fault mutations of a valid profile (13 kinds: required string / number / nested string / list omitted, single block repeated at top level and nested, unknown attribute with an arbitrary letter, unknown block, text where a number is required, list where a string is required, missing label, extra label): rejected with an error diagnostic that has a place inside the file; the unmodified profile loads. Each fault with and without a second, faultless user block and Http listener following the faulty one.",
         "outside": "profiles beyond the listed shapes (Demon, Service, WebHook blocks, External listeners, header/URI lists with values), faults beyond the 13 listed kinds, compositions of faults; non-ASCII values; the reflection layer is the engine's emulation of package reflect (gosx/reflect.go), validated by the native replay of witnesses with the real package",
         "min_completed": 3,
     },
@@ -161,7 +161,7 @@ CHECKS = {
         "groups": [
             {"pkg": "Havoc/cmd/server", "with": SRV_WITH, "entries": ["H_c11_append", "H_c11_replay", "H_c11_fanout", "H_c11_fault", "H_c11_listener_prune", "H_c11_disconnect"], "no_native_witness": True, "no_native_replay": True},
         ],
-        "bounds": "append: 0..3 (thorough 0..8) retained events + one event with arbitrary code / one-shot flag; replay: 0..3 retained events, 0..2 agents with symbolic active flag; fan-out: 1..3 (thorough 1..5) clients, any excluded id, at most one dead transport, arbitrary event code; listener pruning: 1..4 (thorough 1..6) retained listener/chat events of 5 kinds; fault: 2..3 sends/broadcasts to two clients with a write fault possible at every write.",
+        "bounds": "append: 0..3 (thorough 0..8) retained events + one event with arbitrary code / one-shot flag; replay: 0..3 retained events, 0..2 agents with symbolic active flag; fan-out: 1..3 (thorough 1..5) clients, any excluded id, at most one dead transport, arbitrary event code; listener pruning: 1..4 (thorough 1..6) retained listener/chat events of 5 kinds; fault: 2..3 sends/broadcasts to two clients with a write fault possible at every write. Disconnect: login, 0..1 messages, then the transport dies with close error 1006 or another read error, closing the socket failing or not.",
         "outside": "a peer that stalls without error (needs time); websocket framing; concurrent broadcasters",
         "min_completed": 3,
     },
@@ -180,7 +180,7 @@ CHECKS = {
             {"pkg": "Havoc/cmd/server", "with": SRV_WITH, "entries": ["H_c09_died", "H_c09_markdead"]},
             {"pkg": "Havoc/cmd/server", "with": SRV_WITH, "entries": ["H_c09_event"], "shards": 4},
         ],
-        "bounds": "death: all forests over 3 agents (two of the five ids in the universe have the top bit set) plus stars/chains over 4 and 5 agents (an agent with up to 4 links), victim any of them; mark dead/alive events and pivot events (connect naming any 32-bit id with a truncated registration, disconnect, exit, kill date, arbitrary short pivot callback) from every forest over 3 agents.",
+        "bounds": "death: all forests over 3 agents (two of the five ids in the universe have the top bit set) plus stars/chains over 4 and 5 agents (an agent with up to 4 links), victim any of them; mark dead/alive events and pivot events (connect naming any 32-bit id with a truncated registration, disconnect, exit, kill date, arbitrary short pivot callback) from every forest over 3 agents. The dying / marked agent is active or was reported inactive before (as a pivot disconnect leaves it).",
         "outside": "SQLite itself (TS_Links is a set-of-pairs model of the statements in pkg/db/links.go); more than 3 agents",
         "min_completed": 3,
     },
@@ -202,7 +202,7 @@ CHECKS = {
             {"pkg": "Havoc/pkg/agent", "with": ["Havoc/pkg/logr", "Havoc/pkg/common/parser", "Havoc/pkg/socks"], "entries": ["H_c08_relay"], "flags": ["-tags", "uf_aes", "-time", "300s"]},
             {"pkg": "Havoc/pkg/agent", "with": ["Havoc/pkg/logr", "Havoc/pkg/common/parser", "Havoc/pkg/socks"], "entries": ["H_c08_tomap", "H_c08_memfile"], "flags": ["-tags", "uf_aes"]},
         ],
-        "bounds": "chains of 1..3 SMB hops below a direct agent; every agent id with an arbitrary top byte (ids >= 0x80000000 included) and fixed distinct low 24 bits; task = arbitrary command / request id / int argument / byte argument of 0..2 bytes; AES-CTR as uninterpreted per-key stream.",
+        "bounds": "chains of 1..3 SMB hops below a direct agent; every agent id with an arbitrary top byte (ids >= 0x80000000 included) and fixed distinct low 24 bits; task = arbitrary command / request id / int argument / byte argument of 0..2 bytes; AES-CTR as uninterpreted per-key stream. ToMap: pivot agent 1..2 hops down, parent active or reported inactive (structs.Map modelled by the keys ToMap touches). Memory file: 0..2 arbitrary bytes shipped to an agent 1..2 hops down, then a task.",
         "outside": "depth > 3 (thorough: > 4); fully arbitrary ids (thorough tier: target id fully symbolic for one-hop chains); upward relay is covered by C05/C01 harnesses with AES as identity",
         "min_completed": 3,
     },
@@ -215,7 +215,7 @@ CHECKS = {
             {"pkg": "Havoc/pkg/agent", "with": AGENT_WITH, "entries": ["H_c03_identity"]},
             {"pkg": "Havoc/cmd/server", "with": SRV_WITH, "entries": ["H_c03_session_lookup"]},
         ],
-        "bounds": "ParseInt32/64/Bool/Pointer: buffer length 0..16 (thorough 0..24), all byte values; ParseBytes: length 0..14 (thorough 0..22); CanIRead: 0..3 fields of the 5 kinds over 0..16 (thorough 0..22) bytes; session lookup: 1..3 sessions alive or dead, any 32-bit id.",
+        "bounds": "ParseInt32/64/Bool/Pointer: buffer length 0..16 (thorough 0..24), all byte values; ParseBytes: length 0..14 (thorough 0..22); CanIRead: 0..3 fields of the 5 kinds over 0..16 (thorough 0..22) bytes; session lookup: 1..3 sessions alive or dead, any 32-bit id. Field sequence: a length-prefixed field of 0..4 (thorough 0..6) arbitrary bytes read as bytes, text or UTF-16 text, followed by 8 arbitrary bytes read as a 32- or 64-bit field; the packet buffer is compared before and after.",
         "outside": "longer buffers; console text formatting",
         "min_completed": 5,
     },
